@@ -64,6 +64,48 @@ let obs_str (o : observation) : string =
   Buffer.add_string b (" | sl " ^ slice_str o.o_slice);
   Buffer.contents b
 
+
+let pops_str (o : name_ops) : string =
+  let lab l = if l = [] then "." else hex_of_bytes l in
+  Printf.sprintf "rev=%s split=%s suf=%s parents=%d flat=%s"
+    (String.concat "," (List.map lab o.no_rev))
+    (if o.no_split = [] then "-" else String.concat "," (List.map hex_of_bytes o.no_split))
+    (String.concat "," (List.map (fun (n, l) -> Printf.sprintf "%d:%s" (i n) (lab l)) o.no_suffixes))
+    (List.length o.no_suffixes - 1)
+    (match o.no_flat with Some f -> hex_of_bytes f | None -> "none")
+
+let typed_str (x : unit item option) : string =
+  match x with None -> "-" | Some (IOk _) -> "ok" | Some (IErr e) -> "e" ^ si e
+
+let res_str (r : res) : string =
+  match r with
+  | RNone -> "none"
+  | REnd -> "end"
+  | RErr e -> "E" ^ si e
+  | RPos p -> "@" ^ si p
+  | RQ (((n, ty), cl), after) -> Printf.sprintf "%s>%d" (q_str (n, ty, cl)) (i after)
+  | RR (n, ty, cl, ttl, rdlen, after) ->
+      Printf.sprintf "r(%s %d %d %d %d)>%d" (name_obs_str n) (i ty) (i cl) (i ttl) (i rdlen) (i after)
+  | RQOpt (Some ((n, ty), cl)) -> q_str (n, ty, cl)
+  | RQOpt None -> "noq"
+  | RBool b -> "b" ^ b01 b
+  | RName (Some n) -> "n:" ^ name_obs_str n
+  | RName None -> "n:none"
+  | RSecs (((a, b), c), d) -> Printf.sprintf "s %d %d %d %d" (i a) (i b) (i c) (i d)
+  | RCounts (((a, b), c), d) -> Printf.sprintf "c %d %d %d %d" (i a) (i b) (i c) (i d)
+  | RLabels l -> "l:" ^ slice_str l
+  | RTyped l -> "t:" ^ (if l = [] then "-" else String.concat "," (List.map typed_str l))
+
+let op_of_string (s : string) : op =
+  let arg () = if String.length s > 1 then int_of_string (String.sub s 1 (String.length s - 1)) else 0 in
+  match s.[0] with
+  | 'Q' -> OQuestion | 'A' -> OAnswer | 'U' -> OAuthority | 'D' -> OAdditional
+  | 'n' -> OQNext (nat_of_int (arg ())) | 'a' -> OQAnswer (nat_of_int (arg ()))
+  | 'r' -> ORNext (nat_of_int (arg ())) | 's' -> ORNextSection (nat_of_int (arg ()))
+  | 'f' -> OFirst | 'o' -> OSole | 'e' -> OSelf | 'c' -> OCanonical | 'S' -> OSections
+  | 'C' -> OCounts | 'l' -> OSlice (n_of_int (arg ())) | 't' -> OTyped
+  | _ -> failwith "bad op"
+
 let handle = function
   | ["pname"; lim; pos; m] ->
       show_outcome (fun (o, e) ->
@@ -77,6 +119,29 @@ let handle = function
       (match read_all (bytes_of_hex m) with
        | Ok None -> "short"
        | Ok (Some o) -> obs_str o
+       | Err e -> "Err " ^ si e
+       | Panic _ -> "Panic"
+       | OutOfFuel -> "OutOfFuel")
+  | ["pops"; lim; pos; m] ->
+      show_outcome pops_str (c01_pops (bytes_of_hex m) (n_of_int (int_of_string pos)) (n_of_int (int_of_string lim)))
+  | ["ops"; m; ops] ->
+      (match read_ops (bytes_of_hex m) (List.map op_of_string (String.split_on_char ',' ops)) with
+       | Ok None -> "short"
+       | Ok (Some l) -> String.concat " ; " (List.map res_str l)
+       | Err e -> "Err " ^ si e
+       | Panic _ -> "Panic"
+       | OutOfFuel -> "OutOfFuel")
+  | ["isans"; m; q] ->
+      (match c01_isans (bytes_of_hex m) (bytes_of_hex q) with
+       | Ok None -> "short"
+       | Ok (Some b) -> b01 b
+       | Err e -> "Err " ^ si e
+       | Panic _ -> "Panic"
+       | OutOfFuel -> "OutOfFuel")
+  | ["xfr1"; m] ->
+      (match c01_xfr (bytes_of_hex m) with
+       | Ok None -> "short"
+       | Ok (Some r) -> (match i r with 0 | 1 -> "Ok" | 99 -> "?" | k -> string_of_int k)
        | Err e -> "Err " ^ si e
        | Panic _ -> "Panic"
        | OutOfFuel -> "OutOfFuel")
